@@ -60,31 +60,32 @@ Proof.
   simpl in *. now rewrite L.
 Qed.
 
-Theorem broken_no_effect_scan : forall fs fs' m, wfm m -> wf_fs fs -> wf_fs fs' -> same_but_broken fs fs' ->
-  forall q, view_of (scan fs m) q = view_of (scan fs' m) q.
+Theorem broken_no_effect_scan : forall purge fs fs' m, wfm m -> wf_fs fs -> wf_fs fs' -> same_but_broken fs fs' ->
+  forall q, view_of (scan_gen purge fs m) q = view_of (scan_gen purge fs' m) q.
 Proof.
-  intros fs fs' m Hw H1 H2 Hs q.
-  destruct (scan_view fs m q Hw H1) as (A & _). destruct (scan_view fs' m q Hw H2) as (B & _).
+  intros purge fs fs' m Hw H1 H2 Hs q.
+  destruct (scan_view purge fs m q Hw H1) as (A & _). destruct (scan_view purge fs' m q Hw H2) as (B & _).
   rewrite A, B. now rewrite (scan_plan_broken fs fs' _ _ Hs).
 Qed.
 
-Lemma wfm_run : forall s h, Forall wf_fs h -> wfm (run s h).
+Lemma wfm_run : forall purge s h, Forall wf_fs h -> wfm (run_gen purge s h).
 Proof.
-  intros s h Hh. unfold run.
+  intros purge s h Hh. unfold run_gen.
   assert (H0 : wfm (init s)) by constructor.
   revert H0. generalize (init s). induction Hh; intros m0 H0; simpl; [assumption|].
-  apply IHHh. now destruct (scan_view x m0 0 H0 H) as (_ & _ & _ & S4).
+  apply IHHh. now destruct (scan_view purge x m0 0 H0 H) as (_ & _ & _ & S4).
 Qed.
 
 (* after any history: the next scan gives the same policies in force (and the same owners
    and cache) whether an invalid file is seen as changed or as untouched *)
-Theorem broken_no_effect_run : forall s h fs fs', Forall wf_fs h -> wf_fs fs -> wf_fs fs' ->
+Theorem broken_no_effect_run : forall purge s h fs fs', Forall wf_fs h -> wf_fs fs -> wf_fs fs' ->
   same_but_broken fs fs' ->
-  forall q, get q (st_store (scan fs (run s h))) = get q (st_store (scan fs' (run s h))) /\
-            get q (st_map (scan fs (run s h))) = get q (st_map (scan fs' (run s h))) /\
-            get q (st_cache (scan fs (run s h))) = get q (st_cache (scan fs' (run s h))).
+  let m := run_gen purge s h in
+  forall q, get q (st_store (scan_gen purge fs m)) = get q (st_store (scan_gen purge fs' m)) /\
+            get q (st_map (scan_gen purge fs m)) = get q (st_map (scan_gen purge fs' m)) /\
+            get q (st_cache (scan_gen purge fs m)) = get q (st_cache (scan_gen purge fs' m)).
 Proof.
-  intros s h fs fs' Hh H1 H2 Hs q.
-  pose proof (broken_no_effect_scan fs fs' (run s h) (wfm_run s h Hh) H1 H2 Hs q) as E.
+  intros purge s h fs fs' Hh H1 H2 Hs m q.
+  pose proof (broken_no_effect_scan purge fs fs' m (wfm_run purge s h Hh) H1 H2 Hs q) as E.
   unfold view_of in E. inversion E. auto.
 Qed.
